@@ -73,6 +73,13 @@ func runUnit(r *vh.Rng, n int, w *vh.Writer) {
 		k := ecKey(r, elliptic.P256(), "ecdsa-p256")
 		victims = append(victims, makeKind(r, k, "own", nil))
 	}
+	// the other devices are known ones: their genuine certificates have been seen (and accepted)
+	// by this process before anybody presents a certificate that copies their SKI
+	for _, v := range victims {
+		if _, ok, p := skiFromCert(v.leaf); !ok || p != nil {
+			panic("the genuine certificate of a device is refused")
+		}
+	}
 	for i := 0; i < n; i++ {
 		switch x := r.Intn(100); {
 		case x < 55:
